@@ -135,7 +135,8 @@ def run():
         # ---- deep non-tail recursion through the embedding API
         exe = vlib.compile_c(build, os.path.join(vlib.VERIF, "harness", "c", "deeprec.c"), sc.file("deeprec"))
         depths = [1, 10, 300, 1000, 5000, 10000, 40000, 100000, 300000, 1000000, 10000000, 5, -1000, -20000, -300000, -2000000, 7,
-                  3000001, 3000900, 3001500, 3005000, 3020000, 3100000, 4000001, 4000300, 4005000, 4001000, 9]
+                  3000001, 3000900, 3001500, 3005000, 3020000, 3100000, 4000001, 4000300, 4005000, 4001000, 9,
+                  5000001, 5000003, 5000100, 5000200, 5000900, 5001100, 5002000, 5000002, 11]
         if chk.thorough:
             depths += [2 ** k for k in range(4, 24)] + [-(2 ** k) for k in range(4, 22)]
         p = subprocess.run([exe] + [str(d) for d in depths], env=build.env(), cwd=vlib.REPO, stdout=subprocess.PIPE, stderr=subprocess.PIPE, timeout=900)
